@@ -2,13 +2,16 @@
    Statements only; proofs in Proofs/RoundTrip.v (over ListenerSem, ListenerFile, PrinterExpressible).
    Proved, for every accepted document: rendering the parsed model always succeeds — with either API path,
    since the JSON hop is the identity on parsed models (the first clause of the property, and the reason the
-   defect F1 made the direct path fail for every direct assignment).  NOT proved: that parsing the
-   rendering gives the same model back and that the text is then byte-stable — this needs the inversion
-   of printer and lexer/parser at text level, which was not mechanised; it is decided on every run by
-   running the three-round composition of the implementation on each accepted document (both paths) and,
-   as correspondence, the model's own composition (Transform.roundtrip) against it. *)
+   defect F1 made the direct path fail for every direct assignment).  Proved for every RELATION DEFINITION with
+   plain names (last theorem, Proofs/RoundTripChars.v): the text the printer writes for a parsed definition is
+   lexed without error and parsed back to a definition with the same denotation and the same restrictions —
+   printer, lexer, parser and listener composed at character level.  NOT proved: the same for a whole document
+   (headers, type lines, conditions, comments) and for names that are keywords; decided on every run by running
+   the three-round composition of the implementation on each accepted document (both paths) and, as
+   correspondence, the model's own composition (Transform.roundtrip) against it. *)
 From Verif Require Import Base.Str Base.Outcome Model.Ast Model.Token Model.Parser Model.Listener Model.Printer
-  Model.Transform Spec.Sem Spec.Expressible Spec.Normalize Proofs.ListenerSem Proofs.ListenerFile Proofs.ParserShape Proofs.RoundTrip Proofs.Lossless Proofs.ParserTokens Proofs.AcceptedText.
+  Model.Transform Spec.Sem Spec.Expressible Spec.Normalize Proofs.ListenerSem Proofs.ListenerFile Proofs.ParserShape Proofs.RoundTrip Proofs.Lossless Proofs.ParserTokens Proofs.AcceptedText
+  Proofs.ParserComplete Proofs.LexInversion Proofs.LexRender Proofs.RoundTripChars.
 
 (* 1. what the parser can produce for a relation is always printable: carriable, at most one direct assignment,
       and that one in a position from which it can be written first *)
@@ -80,3 +83,19 @@ Theorem C01_accepted_document_is_its_denotation : forall d m exts md,
   dsl_to_model d = DOk m exts md ->
   exists f, parse (fst (Lexer.lex (Lexer.prepass d))) = Some f /\ wf_file f /\ distinct_decls f /\ m = sem_file f /\ scalar_params f.
 Proof. exact accepted_text. Qed.
+
+(* the round trip of one relation definition, characters included: DSL -> model -> DSL -> model gives the same
+   rewrite and the same restrictions ([plain_ref], [plain_u]: every name is a plain identifier that no literal rule
+   of the lexer claims) *)
+Theorem C01_relation_definition_round_trip : forall d refs,
+  wf_rdef d = true -> refs <> [] -> Forall plain_ref refs -> plain_u (sem_rdef d) ->
+  exists t,
+    print_top (sem_rdef d) refs = Some (t, count_direct (sem_rdef d)) /\
+    snd (Model.Lexer.lex (t ++ [10])) = [] /\
+    exists first op rest k,
+      p_def (S (depth_def (rd_first (rdef_of refs (sem_rdef d))) (rd_rest (rdef_of refs (sem_rdef d))))) true (fst (Model.Lexer.lex (t ++ [10])))
+        = Some ((first, op, rest), k) /\
+      map tk k = [NEWLINE] /\
+      sem_rdef {| rd_first := first; rd_op := op; rd_rest := rest |} = sem_rdef d /\
+      restrictions_elem first = (if (count_direct (sem_rdef d) =? 0)%nat then None else Some refs).
+Proof. exact parsed_relation_round_trip. Qed.
